@@ -148,6 +148,27 @@ impl Interp {
                     Err(_) => "err".into(),
                 }
             }
+            ["cfg.cipher", h] => {
+                let Some(name) = unhex(h).and_then(|b| String::from_utf8(b).ok()) else { return "err".into() };
+                match serde_json::from_value::<octo_squirrel::codec::aead::CipherKind>(serde_json::Value::String(name)) {
+                    Ok(k) => format!("ok {:?} 2022={} eih={}", k, k.is_aead_2022() as u8, k.support_eih() as u8),
+                    Err(_) => "err".into(),
+                }
+            }
+            ["cfg.mode", h] => {
+                let Some(name) = unhex(h).and_then(|b| String::from_utf8(b).ok()) else { return "err".into() };
+                match serde_json::from_value::<octo_squirrel::config::Mode>(serde_json::Value::String(name)) {
+                    Ok(m) => format!("ok tcp={} udp={} quic={}", m.enable_tcp() as u8, m.enable_udp() as u8, m.enable_quic() as u8),
+                    Err(_) => "err".into(),
+                }
+            }
+            ["cfg.protocol", h] => {
+                let Some(name) = unhex(h).and_then(|b| String::from_utf8(b).ok()) else { return "err".into() };
+                match serde_json::from_value::<octo_squirrel::protocol::Protocol>(serde_json::Value::String(name)) {
+                    Ok(p) => format!("ok {:?}", p),
+                    Err(_) => "err".into(),
+                }
+            }
             ["s5.dec", kind, h] => {
                 use octo_squirrel::protocol::socks5::codec::*;
                 use tokio_util::codec::Decoder;
